@@ -575,7 +575,8 @@ def m_panic(I, fr, a, ck):
         if isinstance(v, SRef) and isinstance(v.val, Str):
             msg = 'panic: ' + str(v.val.s)[:60]
         elif isinstance(v, Opaque) and v.payload is not None:
-            msg = 'panic: ' + str(v.payload)[:80]
+            pl = v.payload[0] if isinstance(v.payload, tuple) else v.payload
+            msg = 'panic: ' + str(pl)[:80]
     return Outs([panic(True, msg + ' @' + fr.item.last)])
 
 
@@ -599,8 +600,77 @@ def m_io_error_new(I, fr, a, ck):
     return Opaque('io::Error')
 
 
+def _display(v):
+    if isinstance(v, SRef):
+        return _display(v.val)
+    if isinstance(v, (RcV, BoxV)):
+        return _display(v.inner)
+    if isinstance(v, Str):
+        return v.s if isinstance(v.s, str) else None
+    if isinstance(v, bool):
+        return 'true' if v else 'false'
+    if isinstance(v, int):
+        return str(v)
+    if isinstance(v, Adt) and v.ty == 'NamedSymbol':
+        return _display(v.alts[0][1][0])
+    return None
+
+
 def m_format(I, fr, a, ck):
+    """alloc::fmt::format: rendered exactly when the template (length-prefixed literals, 0xC0 = next argument) and all
+    arguments are concrete and displayable; otherwise an opaque placeholder string"""
+    args = a[0]
+    if isinstance(args, Opaque) and isinstance(args.payload, tuple):
+        tmpl, vals = args.payload
+        if isinstance(tmpl, (bytes, bytearray)):
+            out = []
+            i = 0
+            k = 0
+            ok = True
+            while i < len(tmpl):
+                b = tmpl[i]
+                if b == 0:
+                    break
+                if b == 0xC0:
+                    if k >= len(vals):
+                        ok = False
+                        break
+                    d = _display(vals[k])
+                    if d is None:
+                        ok = False
+                        break
+                    out.append(d)
+                    k += 1
+                    i += 1
+                elif b < 0x80:
+                    out.append(tmpl[i + 1:i + 1 + b].decode('utf-8', 'replace'))
+                    i += 1 + b
+                else:
+                    ok = False
+                    break
+            if ok:
+                return Str(''.join(out))
+        elif isinstance(tmpl, str):
+            return Str(tmpl)
     return Str(I.cfg.get('format_string', '<formatted>'))
+
+
+def m_fmt_argument(I, fr, a, ck):
+    return Opaque('fmt::Argument', a[0] if a else None)
+
+
+def m_fmt_arguments(I, fr, a, ck):
+    tmpl = None
+    vals = []
+    for x in a:
+        v = x.val if isinstance(x, SRef) else x
+        if isinstance(v, Opaque) and v.tag == 'bytes':
+            tmpl = v.payload
+        elif isinstance(v, Str) and isinstance(v.s, str) and tmpl is None:
+            tmpl = v.s
+        elif isinstance(v, Seq):
+            vals = [e.payload if isinstance(e, Opaque) and e.tag == 'fmt::Argument' else e for e in v.items]
+    return Opaque('fmt::Arguments', (tmpl, vals))
 
 
 def m_must_use(I, fr, a, ck):
@@ -722,6 +792,14 @@ def m_slice_get(I, fr, a, ck):
                 return NONE
             return some(mk_sref(Seq(s.items[lo:hi])))
         # symbolic upper bound with concrete lower bound 0 is handled by the caller models (generate_graph)
+        if isinstance(lo, int) and not isinstance(hi, int):
+            # symbolic upper bound: one outcome per concrete length, None when out of range
+            H = I.to_bv(hi, 64)
+            outs = Outs()
+            for h in range(lo, n + 1):
+                outs.append(ret(some(mk_sref(Seq(s.items[lo:h]))), H == z3.BitVecVal(h, 64)))
+            outs.append(ret(NONE, z3.Or(z3.UGT(H, z3.BitVecVal(n, 64)), z3.ULT(H, z3.BitVecVal(lo, 64)))))
+            return outs
         raise EngineError('symbolic slice.get range')
     raise EngineError('slice.get with %s' % type(idx).__name__)
 
@@ -1202,12 +1280,13 @@ def register_all(M):
     A('panicking', None, 'unreachable_display', m_panic)
     A('panicking', None, 'panic_display', m_panic)
     for m in ('new_debug', 'new_display', 'new_pointer', 'new_lower_hex'):
-        A('Argument', None, m, m_opaque('fmt::Argument'))
+        A('Argument', None, m, m_fmt_argument)
     for m in ('new', 'from_str', 'from_str_nonconst', 'new_const', 'new_v1', 'new_v1_formatted'):
-        A('Arguments', None, m, m_opaque('fmt::Arguments'))
+        A('Arguments', None, m, m_fmt_arguments)
     A('io', None, '_eprint', m_unit)
     A('Error', None, 'new', m_io_error_new)
     A('fmt', None, 'format', m_format)
+    A(None, None, 'format', m_format)
     A(None, None, 'must_use', m_must_use)
     A('__private', None, 'must_use', m_must_use)
     A('__private', None, 'format_err', m_opaque('anyhow::Error'))
